@@ -173,7 +173,8 @@ def run(cx):
     for r, t in (("R04a", "token start / end positions have current-line (or opener) provenance and are built from the match of that line"),
                  ("R04b", "the lexical error of an unmatched character names the current line"),
                  ("R04c", "an empty node has an empty span at the token under the cursor"),
-                 ("R04d", "node spans: first child's start .. last child's end; leaves copy the token's span")):
+                 ("R04d", "node spans: first child's start .. last child's end; leaves copy the token's span"),
+                 ("R04e", "the tokenizer and get_orig_text cut a str into lines with the same operation")):
         cx.rule(r, t)
     tok = cx.func(REL, "_Tokenizer.tokenize", "R04a")
     parse = cx.func(REL, "LLParser.parse", "R04c")
@@ -256,6 +257,28 @@ def run(cx):
         ok = any(isinstance(s, ast.Assign) and norm(s.value) == norm(call.args[3]) for s in later)
         cx.ob("R04a", call, ok, "the end position is remembered for the next token" if ok else "the emitted token's end is not recorded as the previous end", stmt=norm(call)[:60] + " [carry]")
 
+    # ---------------- R04e
+    got = cx.func(REL, "TElement.get_orig_text", "R04e")
+
+    def line_splitters(f, arg):
+        out = []
+        for c in walk_local(f):
+            if isinstance(c, ast.Call) and isinstance(c.func, ast.Attribute) and c.func.attr in ("split", "splitlines", "rsplit", "partition") and is_name(c.func.value, arg):
+                out.append((c, c.func.attr + "(" + ", ".join(norm(a) for a in c.args) + (", " + ", ".join(f"{k.arg}={norm(k.value)}" for k in c.keywords) if c.keywords else "") + ")"))
+        return out
+    w = line_splitters(tok, params(tok)[1])
+    r = line_splitters(got, params(got)[1])
+    cx.need(len(w) == 1 and len(r) == 1, "R04e", tok, f"one line-splitting call each in tokenize and get_orig_text (found {len(w)}, {len(r)})")
+    ok = w[0][1] == r[0][1]
+    cx.ob("R04e", w[0][0], ok, f"both cut a str text with .{w[0][1]}: line numbers mean the same in both" if ok else
+          f"the tokenizer numbers lines by .{w[0][1]} but get_orig_text by .{r[0][1]}: for texts where the two differ (\\x0c, \\x0b, lone \\r, \\x85, \\u2028 ...) every later span points at the wrong line")
+    # the per-line transformation in the tokenizer may only remove characters at the end of a line (columns keep their meaning)
+    gens = [g for g in walk_local(tok) if isinstance(g, ast.GeneratorExp) and w and w[0][0] in list(ast.walk(g))]
+    ok = len(gens) == 1 and isinstance(gens[0].elt, ast.Call) and isinstance(gens[0].elt.func, ast.Attribute) and gens[0].elt.func.attr == "rstrip" and not gens[0].generators[0].ifs \
+        and norm(gens[0].elt.func.value) == norm(gens[0].generators[0].target)
+    if not gens:
+        ok = True
+    cx.ob("R04e", gens[0] if gens else tok, ok, "lines are only right-stripped (columns and line count unchanged)" if ok else "lines are transformed / filtered in a way that shifts columns or line numbers", stmt="per-line transformation")
     # ---------------- R04b
     lex_seen = {}
     for c, tags, in_loop in pv.lex:
